@@ -566,4 +566,39 @@ def rule_tolerance_shared(ck):
     c02.rule_tolerance_flow(ck)
 
 
-RULES = [rule_scaling, rule_schema, rule_lookup, rule_axes, rule_loaders, rule_quadtree_schema, rule_spacing, rule_rank, rule_tolerance_shared]
+def rule_own_magnitudes(ck):
+    """a forecast's magnitude bins live on its region object (`magnitudes` returns `self.region.magnitudes`), so that object must
+    belong to the forecast: the binding helper writes the bins onto a fresh copy, never onto the region it was handed - that one
+    may be shared with another forecast or a catalog, whose bins would silently change"""
+    P = ck.prog
+    ck.clause('D5')
+    f = P.func('csep.core.regions.create_space_magnitude_region')
+    stores = [n for n in all_nodes(f) if isinstance(n, ast.Attribute) and isinstance(n.ctx, ast.Store) and isinstance(n.value, ast.Name)]
+    if not stores:
+        ck.ob('C11-D5.ownmags', f, 'binds the magnitudes to the region', f.node).unknown('no attribute is written')
+    for st in stores:
+        o = ck.ob('C11-D5.ownmags', f, stmt_of(st), st)
+        # is the name rebound to a fresh object (a call) on every path before this store?
+        asg = [a for a in find_assignments(f, st.value.id) if isinstance(a, ast.Assign)]
+        cfg = f.cfg
+        sn = cfg.stmt_node_containing(st)
+        fresh = [a for a in asg if isinstance(a.value, ast.Call) and cfg.node_of(a) is not None and cfg.dominates(cfg.node_of(a), sn)]
+        is_param = st.value.id in f.params and not fresh
+        how = u(fresh[-1].value) if fresh else None
+        if is_param:
+            o.fail('`%s` writes onto the region object the caller passed in: two forecasts (or a forecast and a catalog) built on the same '
+                   'region object then share one set of magnitude bins - after `B = GriddedForecast(region=R, magnitudes=m2)` the earlier '
+                   '`A = GriddedForecast(region=R, magnitudes=m1)` reports and bins with m2' % u(stmt_of(st))[:60])
+        else:
+            cal = (how or '')
+            ok = any(k in cal for k in ('copy.copy(', 'copy.deepcopy(', 'deepcopy(', '.copy(')) or (how is not None and st.value.id not in f.params)
+            (o.ok('written onto `%s`' % cal[:40]) if ok else o.unknown('cannot tell whether `%s` is a fresh object' % cal[:40]))
+    m = P.func('csep.core.forecasts.MarkedGriddedDataSet.__init__')
+    calls = calls_in(P, m, 'csep.core.regions.create_space_magnitude_region')
+    o = ck.ob('C11-D5.ownregion', m, calls[0] if calls else 'create_space_magnitude_region', calls[0] if calls else m.node)
+    st = stmt_of(calls[0]) if calls else None
+    (o.ok() if st is not None and isinstance(st, ast.Assign) and u(st.targets[0]) == 'self.region' else
+     o.fail('the forecast does not keep the region returned by create_space_magnitude_region'))
+
+
+RULES = [rule_scaling, rule_schema, rule_lookup, rule_axes, rule_loaders, rule_quadtree_schema, rule_spacing, rule_rank, rule_tolerance_shared, rule_own_magnitudes]
